@@ -404,7 +404,7 @@ def gen_C02(c, rng, tier):
         fmt = FMTS[t]
         for kind in KINDS:
             for _ in range(scale(tier, 12, 120)):
-                s, cl, info = rand_run(rng, fmt, kind)
+                s, cl, info = rand_run(rng, fmt, kind, trace=(1 if rng.random() < 0.7 else 0), wants=(1 if kind == 'mc' and rng.random() < 0.6 else None))
                 c.add(t, 'run', s, classes=cl, nontrivial=any(x >= 2 for x in info['calls']), info=info)
             for _ in range(scale(tier, 3, 20)):
                 # the MPI drivers report the reduced counters and sums of the same estimator
@@ -450,8 +450,8 @@ def gen_C11(c, rng, tier):
         for kind in KINDS:
             for _ in range(scale(tier, 12, 100)):
                 dl = rand_dists(rng, fmt, n=rng.choice([1, 2, 3]))
-                s, cl, info = rand_run(rng, fmt, kind, dists=dl, calls=[5, 9, 24], iters=rng.choice([1, 2]),
-                                       value_classes=['small_int', 'frac', 'neg', 'zero', 'nan'])
+                s, cl, info = rand_run(rng, fmt, kind, dists=dl, calls=[5, 9, 24], iters=rng.choice([1, 2]), trace=1,
+                                       wants=(1 if kind == 'mc' and rng.random() < 0.6 else None), value_classes=['small_int', 'frac', 'neg', 'zero', 'nan'])
                 c.add(t, 'run', s, classes=cl + (['two_d'] if any(d[1] > 1 for d in dl) else []), info=info)
         for _ in range(scale(tier, 10, 60)):
             d = rand_dists(rng, fmt, n=1, two_d=True)[0]
